@@ -5,12 +5,12 @@ from __future__ import annotations
 import ast
 
 from sa.cfg import ALL_GROUPS, G_EXC, G_PAUSE, all_paths_pass, dominators, reachable, reaches, specialize
-from sa.db import AnalysisError, FuncInfo, dotted, src, walk_local
+from sa.db import AnalysisError, FuncInfo, bind_args, dotted, src, walk_local
 from sa.flow import defs_reaching, reaching_defs
 from sa.model import contains, enclosing, execute_impl_funcs, is_user_func_call, superstep_funcs
 from sa.variants import Variant, replace_once, sub_first, sub_once
 
-from .common import call_names, runner_no_raise, template_methods
+from .common import call_names, runner_no_raise, template_methods, vars_from_call
 
 ID = "C14"
 EXPLANATION = (
@@ -23,8 +23,77 @@ EXPLANATION = (
     "graph-node executor passes through the converter that re-raises with '<node>/<inner>', and the separator equals the one PauseInfo splits on; "
     "(R6) the partial-state attribute has the same name at the writer and the reader; (R7) a PAUSED nested result is never consumed as data: the map "
     "branch and the sync runner are guarded by an interrupt-reachability predicate that is closed under nesting. (R8) the PauseExecution handler of run() filters the values computed before the pause with the non-raising default policy, so a pause always yields the PAUSED result. R4 also requires that the 'None means pause' test is applied to the handler's resolved answer (awaited when awaitable on every path before it is compared); (R9) the pause description is built in the graph's name space (qualifier inference over the interrupt executor)."
+    " R4 also requires that under 'exactly one data output' the function turning the handler's response into outputs reaches no raise and returns {output: response} verbatim — the resume path stores the supplied value as it is, so a dict answer is an answer, not a name-to-value mapping. (R10) in the interrupt-capable superstep the node cache is consulted and written only outside the executor's resume condition (every data output present in state.values, node not executed, interrupt nodes only): a supplied response is neither shadowed by a cached one nor stored as one."
 )
 NOT_DECIDED = "That pause followed by resume ends exactly as the auto-resolved run (a statement about computed values and histories); ordering of several interrupts beyond 'one per step'."
+
+
+def _resume_shape(exprs: list[ast.AST], out_names: set[str] = frozenset()) -> dict[str, bool]:
+    """What a resume condition consults: presence of every data output in state.values (membership under
+    all(...)), absence of the node from state.node_executions.  ``out_names``: locals holding ``.data_outputs``."""
+    walk = [x for e in exprs for x in ast.walk(e)]
+    presence = [x for x in walk if isinstance(x, ast.Compare) and len(x.ops) == 1 and isinstance(x.ops[0], ast.In) and src(x.comparators[0]).endswith("state.values")]
+    in_all = any(isinstance(x, ast.Call) and dotted(x.func) == "all" and any(p_ in list(ast.walk(x)) for p_ in presence) for x in walk)
+    over_outputs = any(isinstance(x, ast.comprehension) and (src(x.iter).endswith(".data_outputs") or isinstance(x.iter, ast.Name) and x.iter.id in out_names) for x in walk)
+    not_executed = any(isinstance(x, ast.Compare) and len(x.ops) == 1 and isinstance(x.ops[0], ast.NotIn) and src(x.comparators[0]).endswith("state.node_executions") for x in walk)
+    return {"every data output present in state.values": bool(presence) and in_all and over_outputs, "node not yet executed": not_executed}
+
+
+def check_resume_bypasses_cache(ctx, rule: str) -> None:
+    """The superstep that can be handed interrupt nodes consults/writes the node cache only when the node is not an
+    interrupt being resumed; the condition it uses agrees with the executor's own resume condition."""
+    db, rep = ctx.db, ctx.rep
+    from .common import enclosing_facts
+
+    # the executor's own resume condition is decided by C14.R4 (resume-path); here the bypass must have the same
+    # shape: every data output present in state.values, node not yet executed, interrupt nodes only
+    want = {"every data output present in state.values": True, "node not yet executed": True}
+    n_sites = 0
+    for ss in superstep_funcs(db):
+        fs = [ss] + list(ss.children.values())
+        if not any(isinstance(x, ast.Attribute) and x.attr == "is_interrupt" for x in ast.walk(ss.node)):
+            continue  # a runner that is never handed interrupt nodes
+        for f in fs:
+            key_vars = set(vars_from_call(db, f, {"check_cache"}, index=0))
+            for c in db.calls_in(f):
+                names = call_names(db, c, f)
+                if not names & {"check_cache", "store_in_cache"}:
+                    continue
+                which = "lookup" if "check_cache" in names else "store"
+                n_sites += 1
+                facts = enclosing_facts(c)
+                guard_exprs: list[ast.AST] | None = None
+                guard_funcs: list = []
+                for e, pol in facts:
+                    if pol:
+                        if which == "store" and isinstance(e, ast.Name) and e.id in key_vars:
+                            guard_exprs = []  # the key is only set by a (guarded) lookup
+                        continue
+                    if isinstance(e, ast.Name):
+                        ds_ = [d for d in db.local_defs(f).get(e.id, []) if getattr(d, "value", None) is not None]
+                        if len(ds_) == 1:
+                            e = ds_[0].value
+                    if isinstance(e, ast.Call):
+                        for cal in db.resolve_call(e, f):
+                            if cal.func is not None and cal.kind == "func":
+                                rets = [r.value for r in walk_local(cal.func.node) if isinstance(r, ast.Return) and r.value is not None]
+                                if rets and any("node_executions" in src(r) or "state.values" in src(r) for r in rets):
+                                    guard_exprs = rets
+                                    guard_funcs.append(cal.func)
+                    elif "node_executions" in src(e) or "state.values" in src(e):
+                        guard_exprs = (guard_exprs or []) + [e]
+                if guard_exprs is None:
+                    rep.bad(rule, f"{f.qname}:{which}-bypassed-on-resume", f"{f.module.rel}:{c.lineno}", f"the cache {which} also happens for an interrupt whose response the caller supplied: " + ("a stored answer for the same inputs shadows the supplied one (the run ends as if the human had given the earlier answer)" if which == "lookup" else "a supplied answer is stored as if it had been computed and is replayed later without asking"))
+                    continue
+                if guard_exprs:
+                    got = _resume_shape(guard_exprs, {nm for g_ in guard_funcs + [f] for nm, ds2 in db.local_defs(g_).items() if any(getattr(d, "value", None) is not None and src(d.value).endswith(".data_outputs") for d in ds2)})
+                    interrupt_only = any(isinstance(x, ast.Attribute) and x.attr == "is_interrupt" for e in guard_exprs for x in ast.walk(e))
+                    diff = [k for k in want if not got[k]] + ([] if interrupt_only else ["applies to interrupt nodes only"])
+                    rep.add(rule, f"{f.qname}:{which}-bypassed-on-resume", not diff, f"{f.module.rel}:{c.lineno}", "the cache is bypassed exactly under the executor's resume condition" if not diff else f"the bypass condition disagrees with the executor's resume condition (missing: {diff})")
+                else:
+                    rep.ok(rule, f"{f.qname}:{which}-bypassed-on-resume", f"{f.module.rel}:{c.lineno}", "stored only under a key obtained from a (guarded) lookup")
+    if n_sites < 2:
+        raise AnalysisError(f"cache lookup/store sites in the interrupt-capable superstep not recognised ({n_sites})")
 
 
 def run(ctx) -> None:
@@ -37,6 +106,7 @@ def run(ctx) -> None:
     rep.rule("C14.R6", "partial-state attribute name agrees between writer and reader", floor=1)
     rep.rule("C14.R7", "a PAUSED nested result is never consumed as data", floor=4)
     rep.rule("C14.R9", "the pause description is built in the graph's name space: no current input name is looked up in a mapping keyed by the handler's own parameter names (or vice versa)", floor=2)
+    rep.rule("C14.R10", "a response supplied by the caller is used as given: on the resume path the node cache is neither consulted (a cached answer would shadow the supplied one) nor written (a supplied answer is not a computed result)", floor=2)
     rep.rule("C14.R8", "the pause handler always returns the PAUSED result: values computed before the pause are filtered with the non-raising policy", floor=2)
 
     pe = db.cls("runners._shared.types.PauseExecution")
@@ -251,6 +321,45 @@ def run(ctx) -> None:
                 ok, why = False, f"the executor's pause test is not applied to 'await {f.name}(...)'"
     rep.add("C14.R4", f"{call.qname}:pause-test-on-resolved-answer", ok, call.loc(), why if ok else f"{why}: an async handler that resolves to None is taken for an answer (the coroutine object is not None) — the run completes with decision None instead of pausing")
 
+    # resume == handler: the resume path stores what the caller supplied under the output name verbatim, so for a
+    # single-output interrupt the handler path must store the handler's answer verbatim too — whatever its type
+    # (a dict answer is an answer, not a name->value mapping): under 'exactly one data output' the function that
+    # turns the response into outputs reaches no raise and returns {<the output>: <the response>}
+    norm = []
+    out_names = {nm for nm, ds in db.local_defs(call).items() if any(getattr(d, "value", None) is not None and src(d.value).endswith(".data_outputs") for d in ds)}
+    for c in db.calls_in(call):
+        for pos, a in enumerate(c.args):
+            if isinstance(a, ast.Name) and a.id in rvars:
+                for cal in db.resolve_call(c, call):
+                    if cal.func is not None and cal.kind == "func" and cal.func.module == call.module and not is_user_func_call(db, c, call):
+                        b = bind_args(c, cal.func)
+                        rp = next((k for k, v in b.items() if v is a), None)
+                        op = next((k for k, v in b.items() if isinstance(v, ast.Name) and v.id in out_names or src(v).endswith(".data_outputs")), None)
+                        if rp:
+                            norm.append((cal.func, rp, op))
+    if not norm:
+        raise AnalysisError(f"{call.qname}: the function turning the handler's response into outputs was not recognised")
+    for nf, rp, op in norm:
+        ncfg = ctx.cfg(nf)
+        okn, whyn = op is not None, "the response is normalised without the declared data outputs"
+        if okn:
+            val = {f"len({op}) > 1": False, f"len({op}) == 1": True, f"len({op}) != 1": False, f"len({op}) < 2": True, f"len({op}) >= 2": False, op: True, f"not {op}": False}
+            live = reachable(ncfg.entry, specialize(val, ncfg))
+            raises_ = [n for n in live if n.kind == "stmt" and isinstance(n.ast, ast.Raise)]
+            rets_ = [n for n in live if n.kind == "stmt" and isinstance(n.ast, ast.Return)]
+            good_ret = lambda v: isinstance(v, ast.Dict) and len(v.keys) == 1 and v.keys[0] is not None and src(v.keys[0]) == f"{op}[0]" and isinstance(v.values[0], ast.Name) and v.values[0].id == rp
+            if raises_:
+                okn, whyn = False, f"with a single data output the handler's answer can be rejected by its type/shape (raise at line {raises_[0].lineno}): pause + resume with that answer completes, the auto-resolved run fails"
+            elif not rets_ or not all(good_ret(r.ast.value) for r in rets_):
+                badr = next((r for r in rets_ if not good_ret(r.ast.value)), None)
+                okn, whyn = False, f"with a single data output the handler's answer is not stored verbatim under the output name ('{src(badr.ast)[:60] if badr else 'no return'}'): resume stores the supplied value as it is"
+            else:
+                whyn = "with a single data output every answer is stored verbatim under the output name, as the resume path does"
+        rep.add("C14.R4", f"{nf.qname}:single-output-answer-verbatim", okn, nf.loc(), whyn)
+
+    # ---- R10 --------------------------------------------------------------------
+    check_resume_bypasses_cache(ctx, "C14.R10")
+
     # ---- R5 ---------------------------------------------------------------------
     ge = db.cls("runners.async_.executors.graph_node.AsyncGraphNodeExecutor")
     gcall = ge.methods["__call__"]
@@ -388,4 +497,9 @@ VARIANTS = [
     Variant("has-interrupts-top-level-only", "src/hypergraph/graph/core.py", replace_once("return any(node.is_interrupt or (node.nested_graph is not None and node.nested_graph.has_interrupts) for node in self._nodes.values())", "return any(node.is_interrupt for node in self._nodes.values())"), {"C14.R7"}),
     Variant("map-skips-compat", TA, replace_once("        validate_map_compatible(graph)\n", ""), {"C14.R7"}),
     Variant("twin-rename-pause-var", TA, lambda s: s.replace("except PauseExecution as pause:", "except PauseExecution as paused:").replace("getattr(pause, \"_partial_state\", None)", "getattr(paused, \"_partial_state\", None)").replace("pause=pause.pause_info", "pause=paused.pause_info"), set()),
+    Variant("single-output-dict-unwrapped", AI, replace_once("    if len(data_outputs) > 1 and isinstance(response, dict):", "    if isinstance(response, dict) and set(response) == set(data_outputs):"), {"C14.R4"}),
+    Variant("twin-single-output-early-return", AI, replace_once("    if len(data_outputs) > 1 and isinstance(response, dict):", "    if len(data_outputs) == 1:\n        return {data_outputs[0]: response}\n    if isinstance(response, dict):"), set()),
+    Variant("resume-consults-cache", AS, replace_once("        if cache is not None and not is_resuming_interrupt(node, state):", "        if cache is not None:"), {"C14.R10"}),
+    Variant("resume-bypass-ignores-executions", "src/hypergraph/runners/_shared/caching.py", replace_once("    return node.is_interrupt and node.name not in state.node_executions and all(o in state.values for o in node.data_outputs)", "    return node.is_interrupt and all(o in state.values for o in node.data_outputs)"), {"C14.R10"}),
+    Variant("twin-resume-bypass-inline", AS, replace_once("        if cache is not None and not is_resuming_interrupt(node, state):", "        resuming = is_resuming_interrupt(node, state)\n        if cache is not None and not resuming:"), set()),
 ]
